@@ -30,7 +30,8 @@ Section SlabMass.
     let cmp (pb : pt2) : F * F * F := if sph then (a, fst pb, snd pb) else (fst pb, snd pb, c3) in
     let d1 := dist_same_depth sph nat_min (cmp pb1) in
     let d2 := dist_same_depth sph nat_min (cmp pb2) in
-    if d2 <? d1 then (d2, s2, u2) else (d1, s1, u1).
+    let mid := fhalf * (fst p0 + fst p1) in
+    if fabs (fst cp2 - mid) <? fabs (fst cp - mid) then (d2, s2, u2) else (d1, s1, u1).
 
   Fixpoint ridge_scan_full (sph : bool) (nat_min : F * F * F) (cp cp2 : pt2) (pts : list pt2) (vels : list F) (sub : F)
            (first : bool) (best : F * F * F) : F * F * F :=
